@@ -120,6 +120,20 @@ def run(ctx):
         kind, progs = rand_progs(ctx.rng)
         runs.append(args_for(kind, progs) + ["--seed", str(ctx.seed * 100003 + i), "--spur", "0"])
     check_runs(ctx, binary, runs, "random")
+    # systematically: every schedule with at most 2 (thorough: 3) preemptions of small programs, for every payload kind
+    SMALL = {"text": [[["wa", "aeqb"], ["ta", "da"]], [["za", "beqa"], ["ua"], ["da", "db"]], [["aeqb", "wb"], ["wa", "beqa"]]],
+             "ptr": [[["sw", "ca"], ["aeqb", "da"]], [["aeqb", "sw"], ["da", "sw"], ["cb"]]],
+             "cont": [[["ga", "wa"], ["da"]], [["wa", "aeqb"], ["ga", "db"], ["ca"]], [["beqa", "gb"], ["wa", "da"]]]}
+    runs = []
+    for kind in ("string", "variant", "xtext", "ptr", "varr", "vlist", "vmap", "xelem"):
+        fam = "ptr" if kind == "ptr" else ("cont" if kind in ("varr", "vlist", "vmap", "xelem") else "text")
+        for progs in SMALL[fam]:
+            if kind == "xtext":
+                progs = [[op for op in p if op[0] not in "tzu"] or ["wa"] for p in progs]
+            base = args_for(kind, progs) + ["--seed", "1", "--spur", "0"]
+            runs += vlib.preemption_bounded_schedules(binary, base, bound=2 if ctx.quick else 3, cap=120 if ctx.quick else 3000)
+    ctx.notes["preemption_bounded_schedules"] = len(runs)
+    check_runs(ctx, binary, runs, "pb")
     ctx.assumptions.append("sequential consistency at the granularity of the atomic operations (weak-memory reorderings between two atomic accesses are not explored)")
     return vlib.finish(ctx, "model_checking",
                        "TLC state graphs of the reference-count protocol (String / Variant copy-on-write incl. Array / List / HashMap payloads, Xml::Variant text / element payloads, RefCount::Ptr) for 19 "
